@@ -1196,6 +1196,82 @@ SPECS["C03"]["level_text"] += (' Props/C03G (track anch): the vocabulary extende
     'Scope: own-arena anchored slices pushed as one composite; interleaving with register_patch/backfill is the encoder\'s pattern (Props/C01G); foreign '
     'AnchoredSlices, clone/take/arena swap remain C20\'s multi-object vocabulary.')
 
+# ---- track apigaps: the remaining public API of owning_iovec (Model/IovecApi.lean, op words of fam_iovec/api.rs)
+SPECS["C03"]["lean_modules"] += ["Woodpile.Props.C03A"]
+SPECS["C03"]["theorems"] += [
+    "Woodpile.Props.C03A.new_from_slices_abs",
+    "Woodpile.Props.C03A.from_iter_abs",
+    "Woodpile.Props.C03A.new_from_slices_arena_abs",
+    "Woodpile.Props.C03A.from_iter_then_run",
+    "Woodpile.Props.C03A.front_is_first_stable",
+    "Woodpile.Props.C03A.iter_is_stable_prefix",
+    "Woodpile.Props.C03A.flatten_into_appends",
+    "Woodpile.Props.C03A.stable_views_complete",
+    "Woodpile.Props.C03A.read_takes_stable_prefix",
+    "Woodpile.Props.C03A.sink_refines",
+    "Woodpile.Props.C03A.stable_consumer_calls",
+]
+SPECS["C03"]["level_text"] += (' Props/C03A (track apigaps): the public entry points outside that vocabulary are modelled one by one in '
+    'Model/IovecApi.lean and exercised by the iovec family (op words from_iter, from_iter_ref, new_from_slices_arena, front, iter, flatten_into, '
+    'stable, try_stable, sc_consume/sc_advance/sc_read/sc_pop, sink_copy/sink_borrow through dyn / &mut T, is_last, a_clone, s_default, bref_default, '
+    'new_default, c_reserve): FromIterator (both impls) and new_from_slices with an arena build an iovec that satisfies the invariant and abstracts to '
+    'the pipe holding the concatenation (every C03/C04 theorem continues from it: from_iter_then_run); front / IntoIterator / iovs / flatten / '
+    'flatten_into(dst) / StableIovec::{iovs, flatten, flatten_into} return the stable bytes in order with dst kept in front; Read as the crate writes it '
+    '(front + advance_slices) is readInto; ZeroCopySink is push_copy / push; consumer calls through a StableIovec or the Err side of stable_consumer '
+    'are the plain consumer calls. The harness oracle checks every new accessor against stable_prefix() and the shadow buffer.')
+SPECS["C04"]["lean_modules"] += ["Woodpile.Props.C04A"]
+SPECS["C04"]["theorems"] += [
+    "Woodpile.Props.C04A.accessors_ok_iff_no_pending",
+    "Woodpile.Props.C04A.front_and_iter_before_first_hole",
+    "Woodpile.Props.C04A.read_stops_before_placeholder",
+]
+SPECS["C04"]["level_text"] += (' Props/C04A (track apigaps): iovs / flatten / flatten_into(dst) / stable_consumer / StableIovec::try_from now have model '
+    'functions (Model/IovecApi.lean: a Result<T,T> is (isOk, payload)) that the driver prints and the correspondence run compares: all four are Ok '
+    'exactly when the pipe has no hole, and Ok or Err the payload is the stable prefix (byte cells at the front of the pipe, dst kept in front); '
+    'front / iteration hand out stable slices only; Read as the crate writes it (front + advance_slices) stops before the first placeholder.')
+SPECS["C05"]["lean_modules"] += ["Woodpile.Props.C05A"]
+SPECS["C05"]["theorems"] += [
+    "Woodpile.Props.C05A.from_iter_is_wstep",
+    "Woodpile.Props.C05A.sink_is_wstep",
+    "Woodpile.Props.C05A.defaults_are_wsteps",
+    "Woodpile.Props.C05A.stable_consumer_is_wstep",
+    "Woodpile.Props.C05A.new_from_slices_arena_is_wrun",
+    "Woodpile.Props.C05A.accessors_return_stable_slices",
+    "Woodpile.Props.C05A.accessors_exposed_live",
+]
+SPECS["C05"]["level_text"] += (' Model identity (audit gap 6): the Lean driver of the iovec family no longer wires the model functions a second time - '
+    'it parses every op line into WOp values and computes the next world with World.step / World.run, the very function these theorems quantify over '
+    '(Driver/Iovec.lean: parseWOp, stepWOp; World.step = none is classified as bad-op / caught wrong-size backfill panic / panic). Props/C05A (track apigaps): '
+    'the op words added for the rest of the public API (from_iter, ZeroCopySink, ByteArena::clone, Backref::default, consumer calls through a StableIovec) '
+    'are executed as the WOp steps they are proved equal to, and front / iteration / iovs / StableIovec::iovs hand out slices of the stable prefix only, so '
+    'exposed_live covers them.')
+# rough_tlv: MessageView::inner / into_inner, Tag conversions and ordering (Model/RoughTlvApi.lean)
+SPECS["C12"]["lean_modules"] += ["Woodpile.Props.C12A"]
+SPECS["C12"]["theorems"] += [
+    "Woodpile.Props.C12A.inner_is_input",
+    "Woodpile.Props.C12A.tag_value_of_u32",
+    "Woodpile.Props.C12A.tag_of_value",
+    "Woodpile.Props.C12A.tag_order_is_value_order",
+]
+SPECS["C12"]["level_text"] += (" Props/C12A (track apigaps): inner()/into_inner() return the bytes the view was built from (printed and compared on every "
+    "view); Tag as the crate stores it (4 bytes): u32 <-> Tag <-> [u8;4] round trips, Ord/PartialOrd = order of the little-endian values (op `tag a b` "
+    "of the tlvview family: every From/Into impl, new, new_from_u32, value, cmp, partial_cmp, <, == on pairs whose byte order and value order differ).")
+# vouched_time: VouchedTime::new_or_die / now_or_die (Model/VouchedTimeApi.lean)
+SPECS["C14"]["lean_modules"] += ["Woodpile.Props.C14A"]
+SPECS["C14"]["theorems"] += [
+    "Woodpile.Props.C14A.new_or_die_cases",
+    "Woodpile.Props.C14A.new_or_die_rule",
+    "Woodpile.Props.C14A.now_or_die_same_rule",
+]
+SPECS["C14"]["level_text"] += (" Props/C14A (track apigaps): the _or_die constructors (ops new_or_die / now_or_die of the vtime family) return a value "
+    "exactly inside the same window and die everywhere else; never a VouchedTime outside the rule.")
+# hcobs::find_stuff_sequence called directly (op `find` of hcobs_enc)
+SPECS["C02"]["lean_modules"] += ["Woodpile.Props.C02A"]
+SPECS["C02"]["theorems"] += ["Woodpile.Props.C02A.find_stuff_sequence_spec"]
+SPECS["C02"]["level_text"] += (" Props/C02A (track apigaps): the public hcobs::find_stuff_sequence is exercised on its own (op `find`: FE/FD runs, a pair at every "
+    "position incl. the last two bytes) against Spec.findStuff, characterised exactly (first occurrence / none). The production Encoder is also fed through its "
+    "ZeroCopySink impl behind `dyn` (methods S / T of hcobs_enc, model = the borrow / copy methods).")
+
 # ---- track c10enc (claim-audit gaps 2, 4, 11): C10 / C05 on the real codec call sequences, drop histories ----
 SPECS["C10"]["lean_modules"] += ["Woodpile.Props.C10H"]
 SPECS["C10"]["theorems"] += [
